@@ -78,6 +78,29 @@ type hmacObj struct {
 	writes  int
 	resets  int
 	symLens []*Term // lengths of message chunks written with a symbolic length
+	// exact accumulation while chunks of symbolic length are being written
+	acc       *SliceV
+	accChunks []*Term
+	accLens   []*Term
+}
+
+// hmacSettle turns an accumulated message of symbolic chunk lengths into an ordinary message if
+// its total length can only have one value on this path (e.g. "field then zero padding up to
+// 128"); otherwise the message stays symbolic in length and its digest is a fresh value shared
+// by structurally identical (key, chunks, lengths) only.
+func (e *Exec) hmacSettle(h *hmacObj) {
+	if h.acc == nil {
+		return
+	}
+	if v, ok := e.uniqueValue(h.acc.len); ok && h.acc.arr != nil {
+		fixed := &SliceV{arr: h.acc.arr, off: h.acc.off, len: e.c64(v), cap: h.acc.cap}
+		h.msg = e.sliceBytes(fixed)
+		h.symLens = nil
+	} else {
+		h.msg = h.accChunks
+		h.symLens = h.accLens
+	}
+	h.acc, h.accChunks, h.accLens = nil, nil, nil
 }
 
 var hashAlgs = map[string]struct {
@@ -213,12 +236,20 @@ func (e *Exec) opaqueInvoke(ov *OpaqueV, method string, args []Value, c *ssa.Cal
 					s = &SliceV{arr: s.arr, off: s.off, len: e.c64(v), cap: s.cap}
 				}
 			}
-			if !s.len.IsConst() && s.arr != nil && s.off.IsConst() {
-				// message chunk of symbolic length: kept as (window bytes, length term); the digest is then a
-				// fresh value shared between structurally identical (key, chunks) only
-				win := e.windowBytes(s.arr, int(s.off.val))
-				h.msg = append(h.msg, win...)
-				h.symLens = append(h.symLens, s.len)
+			if h.acc != nil || (!s.len.IsConst() && s.arr != nil && s.off.IsConst()) {
+				// a chunk of symbolic length (or a chunk after one): the message is accumulated exactly as
+				// a byte slice of symbolic length (the executor's own append); it becomes an ordinary
+				// message again at Sum if its total length has a single possible value
+				if h.acc == nil {
+					n := e.c64(int64(len(h.msg)))
+					h.acc = &SliceV{arr: e.mkBytes(append([]*Term{}, h.msg...), e.newObj("intrinsic", "hmac-message")), off: e.c64(0), len: n, cap: n}
+					h.accChunks = append([]*Term{}, h.msg...)
+				}
+				if s.arr != nil && s.off.IsConst() {
+					h.accChunks = append(h.accChunks, e.windowBytes(s.arr, int(s.off.val))...)
+				}
+				h.accLens = append(h.accLens, s.len)
+				h.acc = e.appendOp(h.acc, s, nil).(*SliceV)
 				h.writes++
 				h.digest = nil
 				return &TupleV{E: []Value{s.len, &IfaceV{}}}
@@ -231,6 +262,7 @@ func (e *Exec) opaqueInvoke(ov *OpaqueV, method string, args []Value, c *ssa.Cal
 			h.writes++
 			return &TupleV{E: []Value{e.c64(int64(len(bs))), &IfaceV{}}}
 		case "Sum":
+			e.hmacSettle(h)
 			d := e.hmacDigest(h)
 			h.sums++
 			vals := make([]Value, len(d))
@@ -241,6 +273,7 @@ func (e *Exec) opaqueInvoke(ov *OpaqueV, method string, args []Value, c *ssa.Cal
 		case "Reset":
 			h.msg = nil
 			h.symLens = nil
+			h.acc, h.accChunks, h.accLens = nil, nil, nil
 			h.digest = nil
 			h.resets++
 			return &TupleV{}
@@ -626,6 +659,22 @@ func inContains(e *Exec, args []Value, site *ssa.CallCommon) Value {
 	if ok1 && ok2 {
 		return e.tb.Bool(strings.Contains(s, sub))
 	}
+	hv, nv := args[0].(*StrV), args[1].(*StrV)
+	if hv.len.IsConst() && nv.len.IsConst() {
+		// exact: some window of the haystack equals the needle
+		hs, ns := e.strBytes(hv), e.strBytes(nv)
+		found := e.tb.False()
+		for i := 0; i+len(ns) <= len(hs); i++ {
+			eq := e.tb.True()
+			for j := range ns {
+				eq = e.tb.And(eq, e.tb.Eq(hs[i+j], ns[j]))
+			}
+			found = e.tb.Or(found, eq)
+		}
+		return found
+	}
+	// symbolic length: unconstrained (both outcomes are explored; a model that depends on it is
+	// subject to the native replay like every other model)
 	return e.freshVar("strings.Contains", 0)
 }
 
